@@ -502,3 +502,47 @@ def c04_10(ctx):
         if both and not pat.endswith('$'):
             ctx.fail(fn, fn.node, 'pattern %s = %r is not anchored at the end: it also matches longer strings that merely begin like a year-month (a full year-month-day date is then reset to the first of the month at midnight)' % (name, pat),
                      stmt='%s = %s' % (name, pat), witness="dt('2021-Dec-05')")
+
+
+@obligation('C04.11', 'TABLES (guards by truth table) + MATCH argument roles', '_dates:dt (argument-count dispatch, timezone attachment), uk2dt / us2dt (year-month strings)',
+            'every spelling of an instant reaches the same datetime: the dispatch on the number of arguments (1: by kind; 2: year, month; 3: y m d; 4 with a weekday name: n-th weekday; more: + h m s ADDED), year-month strings mean the FIRST of that month, and a timezone is attached with tz_replace(result, tzinfo) exactly when one was given',
+            axioms=())
+def c04_11(ctx):
+    f = ctx.repo.fn('_dates:dt')
+    expect_guards(ctx, f, [
+        ('tzinfo is None and len(args) and is_tz(args[-1])', 'tzinfo = args[-1]', 'a trailing timezone argument is the timezone'),
+        ('len(args) == 0', 'res = none() if callable(none) else none', 'no argument: the default'),
+        ('len(args) == 1', 'if t is None:\n    return tz_convert(none(), tzinfo) if callable(none) else none', 'one argument: dispatch on its kind'),
+        ('len(args) == 2', 'y, m = ym(*args)', 'two arguments are year and month'),
+        ('len(args) == 4 and is_str(args[3])', 'return tz_replace(nth_weekday_of_month(*args), tzinfo)', 'y, m, n, weekday name'),
+        ('len(args) > 3', 'args = [int(a) for a in args[3:]] + [0, 0, 0]', 'further arguments are hours, minutes, seconds'),
+        ('is_num(t)', 'if is_nan(t):\n    return tz_convert(none(), tzinfo) if callable(none) else none', 'numbers'),
+        ('is_bump(t)', 'return dt_bump(dt(0, tzinfo=tzinfo), t)', 'a tenor counts from today'),
+    ], where=[x for x in ast.walk(f.node) if isinstance(x, ast.If)])
+    expect_statements(ctx, f, [('args = args[:-1]', 'the trailing timezone is peeled off the arguments'), ('t = args[0]', 'the first argument decides the form'),
+                               ('args1 = as_list(args[1:])', 'the rest are tenors or y/m/d parts'), ('args = [t] + args1', 'the argument count is taken after flattening')])
+    ctx.count(1, f.where())
+    hm = [s for s in ast.walk(f.node) if isinstance(s, ast.Assign) and 'timedelta' in U(s.value) and 'hours' in U(s.value)]
+    if not hm or N(hm[0].value) != NS('t + datetime.timedelta(hours=args[0], minutes=args[1], seconds=args[2])'):
+        ctx.fail(f, hm[0] if hm else f.node, 'the time of day is not ADDED to the date as t + timedelta(hours=args[0], minutes=args[1], seconds=args[2]): %s' % (U(hm[0].value) if hm else '?'))
+    # timezone attachment: `res if tzinfo is None else tz_replace(res, tzinfo)` - whatever the spelling, on every such exit
+    n = 0
+    for c in [x for x in ast.walk(f.node) if isinstance(x, ast.Call) and call_name(x) in ('tz_replace', 'tz_convert')]:
+        n += 1
+        if len(c.args) != 2 or c.keywords or U(c.args[1]) != 'tzinfo':
+            ctx.fail(f, c, '`%s`: the value comes first and the timezone is the SECOND argument of %s' % (U(c), call_name(c)))
+    for p in sym_paths(f):
+        c = p.value
+        if p.term == 'return' and isinstance(c, ast.Call) and call_name(c) == 'tz_replace' and len(c.args) == 2:
+            n += 1
+            if p.holds('%s is None' % U(c.args[1]), True):
+                ctx.fail(f, p.node, '%s is applied on the path where the timezone is None, and skipped when one is given' % U(c))
+    ctx.count(n)
+    for name in ('uk2dt', 'us2dt'):
+        g = ctx.repo.fn('_dates:%s' % name)
+        expect_guards(ctx, g, [('yyyymm.search(t) is not None or yyyymmm.search(t) is not None', 'res = datetime.datetime(res.year, res.month, 1)', 'a year-month string is the first of that month')],
+                      where=[x for x in ast.walk(g.node) if isinstance(x, ast.If)])
+        ctx.count(1, g.where())
+        rr = returns_of(g.node)
+        if not rr or N(rr[-1].value) != NS('tz_replace(res, tzinfo)'):
+            ctx.fail(g, rr[-1] if rr else g.node, '%s does not end with tz_replace(res, tzinfo): %s' % (name, U(rr[-1].value) if rr else '?'))
